@@ -148,7 +148,9 @@ fn oracle(log: &[Obs], finished_quiescent: bool) -> V {
                 }
             }
             Obs::TimerUntil { op, t } => match episode.as_mut() {
-                Some(e) if e.announced => {
+                // (arming before or after the announcement is both fine; the announcement is
+                // required before the wait ends, see CheckAllowed / ping below)
+                Some(e) => {
                     if *t != e.expect_time {
                         return bad("time-bound timer armed for another time than the policy's", format!("{t:?} vs {:?}", e.expect_time));
                     }
@@ -158,7 +160,7 @@ fn oracle(log: &[Obs], finished_quiescent: bool) -> V {
                     e.has_until = true;
                     e.timers.push(*op);
                 }
-                _ => return bad("time-bound timer armed before the timing was announced", format!("#{i}")),
+                None => return bad("time-bound timer armed without a timing from the policy", format!("#{i}")),
             },
             Obs::TimerFor { op, d } => {
                 if d.as_millis() as u64 == REBOOT_MS && in_wait {
@@ -168,7 +170,7 @@ fn oracle(log: &[Obs], finished_quiescent: bool) -> V {
                     reboot_timer = Some(*op);
                 } else {
                     match episode.as_mut() {
-                        Some(e) if e.announced => {
+                        Some(e) => {
                             if Some(*d) != e.expect_min {
                                 return bad("minimum-wait timer armed for another duration than the policy's", format!("{d:?} vs {:?}", e.expect_min));
                             }
@@ -184,6 +186,9 @@ fn oracle(log: &[Obs], finished_quiescent: bool) -> V {
                     Some(e) => e,
                     None => return bad("check decision requested before any wait was computed", ""),
                 };
+                if !e.announced {
+                    return bad("wait ended without the timing having been announced", format!("#{i}"));
+                }
                 let n_expected = 1 + e.expect_min.is_some() as usize;
                 let complete = e.timers.len() == n_expected && e.timers.iter().all(|t| fired.contains(t));
                 let requested = pending_requests > 0;
